@@ -13,7 +13,8 @@
 (*                      KF_C13_MergedNodesKeepAdditions                                            *)
 EXTENDS Snapshot, TLC, Json
 
-CONSTANTS MaxPre, MaxSnap, Legacy, MaxHist
+CONSTANTS MaxPre, MaxSnap, Legacy, MaxHist,
+          Cuts      \* FALSE: enumerate complete imports only (scenario emission for larger snapshots)
 VARIABLES store, prev, last, hist
 vars == <<store, prev, last, hist>>
 
@@ -65,7 +66,7 @@ Next ==
     \/ \E g \in PreGraphs : Load(g)
     \/ \E s \in SnapGraphs, k \in KeysU : ImportAll(s, k)
     \/ \E s \in SnapGraphs, k \in KeysU, kn \in 0..MaxSnap, kr \in 0..2 :
-          kn <= Len(s.nodes) /\ kr <= Len(s.rels) /\ ~(kn = Len(s.nodes) /\ kr = Len(s.rels)) /\ ImportCut(s, k, kn, kr)
+          Cuts /\ kn <= Len(s.nodes) /\ kr <= Len(s.rels) /\ ~(kn = Len(s.nodes) /\ kr = Len(s.rels)) /\ ImportCut(s, k, kn, kr)
 
 Spec == Init /\ [][Next]_vars
 View == <<store, prev, last>>
